@@ -78,7 +78,9 @@ def gen_dataset(rng, force=None):
         how = rng.choice(["dir", "dir", "_metadata"])
     return {"sizes": sizes, "scheme": scheme, "part": part, "extra": extra, "index": index, "fab": fab, "open": how,
             "mod": [rng.choice([2, 3]), rng.choice([2, 3])], "tz": rng.choice(["US/Pacific", "Europe/Berlin", "UTC", "Asia/Kolkata"]),
-            "tunit": rng.choice(["us", "ns", "ms"])}
+            "tunit": rng.choice(["us", "ns", "ms"]),
+            # several data pages per column chunk (offsets inside a row group's slice of the views), data page v1 / v2
+            "page_size": rng.choice([None, None, 64, 200]), "dpv": rng.choice([1, 1, 2])}
 
 
 def dataset_frame(ds):
@@ -128,12 +130,19 @@ def build_dataset(ds, root):
         kw["row_group_offsets"] = offs
     if ds["index"] and ds["index"] != "rix":
         kw["write_index"] = True
-    if ds["scheme"] == "simple":
-        path = os.path.join(root, "ds.parquet")
-        fastparquet.write(path, df, **kw)
-    else:
-        path = os.path.join(root, "ds")
-        fastparquet.write(path, df, file_scheme=ds["scheme"], partition_on=ds["part"] or [], **kw)
+    saved = writer.MAX_PAGE_SIZE, writer.DATAPAGE_VERSION
+    try:
+        if ds.get("page_size"):
+            writer.MAX_PAGE_SIZE = ds["page_size"]
+        writer.DATAPAGE_VERSION = ds.get("dpv", 1)
+        if ds["scheme"] == "simple":
+            path = os.path.join(root, "ds.parquet")
+            fastparquet.write(path, df, **kw)
+        else:
+            path = os.path.join(root, "ds")
+            fastparquet.write(path, df, file_scheme=ds["scheme"], partition_on=ds["part"] or [], **kw)
+    finally:
+        writer.MAX_PAGE_SIZE, writer.DATAPAGE_VERSION = saved
     if ds["fab"]:
         pf = fastparquet.ParquetFile(path)
         rgs = list(pf.fmd.row_groups)
